@@ -816,3 +816,8 @@ def r20_5(chk: Check) -> None:
 def rules(chk: Check) -> None:
     for grp in (r20_1, r20_5, r20_2, r20_3, r20_4):
         chk.stage(grp, chk)
+    # R20.6: potentials built without an explicit `integrals` argument do not share one Integrals object (no default argument object escapes), NaN
+    # guards are effective;  R20.7: the imaginary-part handling is entered for strictly negative m^2 only, identically in both one-loop pieces
+    from .shared import defensive_idioms_effective, imaginary_dispatch_strict
+    chk.stage(defensive_idioms_effective, chk, "R20.6", ("PotentialTools.effectivePotentialNoResum", "PotentialTools.integrals", "effectivePotential", "interpolatableFunction"))
+    chk.stage(imaginary_dispatch_strict, chk, "R20.7")
